@@ -46,6 +46,24 @@ Proof. discriminate. Qed.
 
 Ltac finish := try reflexivity; try (f_equal; lia); try lia.
 
+(* ---- wrap arithmetic facts used below (each closed by lia on div/mod equations) ---- *)
+Section Wraps.
+Local Ltac Zify.zify_post_hook ::= Z.div_mod_to_equations.
+Lemma u64_small x : 0 <= x < 18446744073709551616 -> u64 x = x.
+Proof. unfold u64; intros; lia. Qed.
+Lemma u64_neg x : -18446744073709551616 <= x < 0 -> u64 x = x + 18446744073709551616.
+Proof. unfold u64; intros; lia. Qed.
+Lemma s64_small x : -9223372036854775808 <= x < 9223372036854775808 -> s64 x = x.
+Proof. unfold s64; intros; lia. Qed.
+Lemma s64_high x : 9223372036854775808 <= x < 18446744073709551616 -> s64 x = x - 18446744073709551616.
+Proof. unfold s64; intros; lia. Qed.
+Lemma s64_u64 x : s64 (u64 x) = s64 x.
+Proof. unfold s64, u64; lia. Qed.
+End Wraps.
+
+Definition clk (c : Z) : clock := if c =? 0 then Up else if c =? 1 then Mono else Wall.
+Definition cnum (c : clock) : Z := match c with Up => 0 | Mono => 1 | Wall => 2 end.
+
 Lemma to_clock_and_value_spec k t :
   in64 t -> t <> FOREVER -> clocks_ok k ->
   f_dispatch_time_to_clock_and_value t (now_wall k) =
@@ -80,7 +98,125 @@ Proof.
   (split; [lia | repeat split; intros Hc; first [discriminate Hc | lia]]).
 Qed.
 
-(* the main functional-correctness statement for dispatch_time *)
+(* re-encoding: what the 64-bit result of _dispatch_clock_and_value_to_time denotes *)
+Lemma c2t_decode k c v :
+  clocks_ok k -> 1 <= v < 9223372036854775808 ->
+  decode k (f_dispatch_clock_and_value_to_time (cnum c) v) =
+  if v >=? MAXV then Forever
+  else match c with
+       | Up => At Up v | Mono => At Mono v
+       | Wall => if v =? 1 then Forever else if v =? 2 then At Wall (now_wall k) else At Wall v
+       end.
+Proof.
+  unfold clocks_ok, f_dispatch_clock_and_value_to_time, MAXV. intros (Hu & Hm & Hw) Hv.
+  destruct (Z.geb_spec v 4611686018427387903) as [Hge|Hlt].
+  - unfold decode, FOREVER. reflexivity.
+  - destruct c; cbn [cnum]; eval_lit.
+    + unfold decode, FOREVER, MAXV. crunch; finish.
+    + rewrite lor_b63 by lia. unfold decode, FOREVER, MAXV. crunch; finish.
+    + rewrite u64_neg by lia. unfold decode, FOREVER, WALLNOW, MAXV. crunch; finish.
+Qed.
+
+(* the arithmetic core of dispatch_time for the uptime and monotonic clocks, on a base b already
+   resolved against the clock (1 <= b <= MAXV) *)
+Lemma nonwall_arith k c b delta :
+  clocks_ok k -> c <> Wall -> 1 <= b <= 4611686018427387903 -> ins64 delta ->
+  decode k
+    (if delta >=? 0
+     then let offset_1 := u64 delta in
+          let value_9 := u64 (b + offset_1) in
+          if s64 value_9 <=? 0 then 18446744073709551615
+          else f_dispatch_clock_and_value_to_time (cnum c) value_9
+     else let offset_2 := u64 (s64 (- delta)) in
+          let value_10 := u64 (b - offset_2) in
+          if s64 value_10 <? 1 then f_dispatch_clock_and_value_to_time (cnum c) 1
+          else f_dispatch_clock_and_value_to_time (cnum c) value_10)
+  = shifted k c b delta.
+Proof.
+  intros Hk Hc Hb Hd. unfold ins64 in Hd. cbv zeta.
+  destruct (Z.geb_spec delta 0) as [Hd0|Hd0].
+  - rewrite (u64_small delta) by lia. rewrite (u64_small (b + delta)) by lia.
+    destruct (Z.leb_spec (s64 (b + delta)) 0) as [Hs|Hs].
+    + unfold shifted, MAXV.
+      assert (9223372036854775808 <= b + delta).
+      { destruct (Z.lt_ge_cases (b + delta) 9223372036854775808); [|lia]. rewrite s64_small in Hs by lia. lia. }
+      destruct (Z.geb_spec (b + delta) 4611686018427387903); [reflexivity|lia].
+    + assert (b + delta < 9223372036854775808).
+      { destruct (Z.lt_ge_cases (b + delta) 9223372036854775808); [lia|]. rewrite s64_high in Hs by lia. lia. }
+      rewrite (c2t_decode k c) by (assumption || lia). unfold shifted, lo, MAXV.
+      destruct (Z.geb_spec (b + delta) 4611686018427387903); [reflexivity|].
+      destruct c; try congruence; (destruct (Z.ltb_spec (b + delta) 1); [lia|reflexivity]).
+  - assert (Ho : u64 (s64 (- delta)) = - delta).
+    { destruct (Z.eq_dec delta (-9223372036854775808)) as [->|].
+      - reflexivity.
+      - rewrite s64_small by lia. apply u64_small. lia. }
+    rewrite Ho. replace (b - - delta) with (b + delta) by lia.
+    rewrite s64_u64, (s64_small (b + delta)) by lia.
+    destruct (Z.ltb_spec (b + delta) 1) as [Hs|Hs].
+    + rewrite (c2t_decode k c) by (assumption || lia). unfold shifted, lo, past, MAXV. cbn.
+      destruct (Z.geb_spec (b + delta) 4611686018427387903); [lia|].
+      destruct c; try congruence; (destruct (Z.ltb_spec (b + delta) 1); [reflexivity|lia]).
+    + rewrite (u64_small (b + delta)) by lia.
+      rewrite (c2t_decode k c) by (assumption || lia). unfold shifted, lo, MAXV.
+      destruct (Z.geb_spec (b + delta) 4611686018427387903); [reflexivity|].
+      destruct c; try congruence; (destruct (Z.ltb_spec (b + delta) 1); [lia|reflexivity]).
+Qed.
+
+(* the wall-clock branch: b is the decoded number of nanoseconds since the epoch (3 <= b <= MAXV) *)
+Lemma wall_arith k b delta :
+  clocks_ok k -> 3 <= b <= 4611686018427387903 -> ins64 delta ->
+  decode k
+    (let offset := u64 delta in
+     if delta >=? 0
+     then let value_1 := u64 (b + offset) in
+          if s64 value_1 <=? 0 then 18446744073709551615
+          else f_dispatch_clock_and_value_to_time 2 value_1
+     else let value_2 := u64 (b + offset) in
+          let value_4 := if s64 value_2 <=? 1 then let value_3 := 2 in value_3 else value_2 in
+          f_dispatch_clock_and_value_to_time 2 value_4)
+  = shifted k Wall b delta.
+Proof.
+  intros Hk Hb Hd. unfold ins64 in Hd. cbv zeta.
+  pose proof Hk as (_ & _ & Hw). unfold MAXV in Hw.
+  destruct (Z.geb_spec delta 0) as [Hd0|Hd0].
+  - rewrite (u64_small delta) by lia. rewrite (u64_small (b + delta)) by lia.
+    destruct (Z.leb_spec (s64 (b + delta)) 0) as [Hs|Hs].
+    + unfold shifted, MAXV.
+      assert (9223372036854775808 <= b + delta).
+      { destruct (Z.lt_ge_cases (b + delta) 9223372036854775808); [|lia]. rewrite s64_small in Hs by lia. lia. }
+      destruct (Z.geb_spec (b + delta) 4611686018427387903); [reflexivity|lia].
+    + assert (b + delta < 9223372036854775808).
+      { destruct (Z.lt_ge_cases (b + delta) 9223372036854775808); [lia|]. rewrite s64_high in Hs by lia. lia. }
+      rewrite (c2t_decode k Wall) by (assumption || lia). unfold shifted, lo, MAXV.
+      destruct (Z.geb_spec (b + delta) 4611686018427387903); [reflexivity|].
+      destruct (Z.ltb_spec (b + delta) 3); [lia|].
+      destruct (Z.eqb_spec (b + delta) 1); [lia|]. destruct (Z.eqb_spec (b + delta) 2); [lia|reflexivity].
+  - rewrite (u64_neg delta) by lia.
+    assert (Hs : s64 (u64 (b + (delta + 18446744073709551616))) = b + delta).
+    { rewrite s64_u64. unfold s64.
+      replace (b + (delta + 18446744073709551616) + 9223372036854775808)
+        with ((b + delta + 9223372036854775808) + 1 * 18446744073709551616) by lia.
+      rewrite Z.mod_add by lia. rewrite Z.mod_small by lia. lia. }
+    rewrite Hs.
+    destruct (Z.leb_spec (b + delta) 1) as [Hle|Hgt].
+    + change (f_dispatch_clock_and_value_to_time 2 2) with (f_dispatch_clock_and_value_to_time (cnum Wall) 2).
+      rewrite (c2t_decode k Wall) by (assumption || lia). unfold shifted, lo, past, MAXV. cbn.
+      destruct (Z.geb_spec (b + delta) 4611686018427387903); [lia|].
+      destruct (Z.ltb_spec (b + delta) 3); [reflexivity|lia].
+    + assert (Hu : u64 (b + (delta + 18446744073709551616)) = b + delta).
+      { unfold u64. replace (b + (delta + 18446744073709551616)) with ((b + delta) + 1 * 18446744073709551616) by lia.
+        rewrite Z.mod_add by lia. apply Z.mod_small. lia. }
+      rewrite Hu.
+      change 2 with (cnum Wall) at 1.
+      rewrite (c2t_decode k Wall) by (assumption || lia). unfold shifted, lo, past, MAXV.
+      destruct (Z.geb_spec (b + delta) 4611686018427387903); [lia|].
+      destruct (Z.eqb_spec (b + delta) 1); [lia|].
+      destruct (Z.eqb_spec (b + delta) 2) as [E|E].
+      * destruct (Z.ltb_spec (b + delta) 3); [reflexivity|lia].
+      * destruct (Z.ltb_spec (b + delta) 3); [lia|reflexivity].
+Qed.
+
+(* ------------------------------------------------------------------ dispatch_time *)
 Lemma dispatch_time_shift k inval delta c b :
   in64 inval -> ins64 delta -> clocks_ok k ->
   decode k inval = At c b ->
@@ -93,17 +229,237 @@ Proof.
   rewrite (to_clock_and_value_spec k inval Hi Hne Hk), Hdec.
   destruct (decode_At k inval c b Hi Hk Hdec) as (Hb & HbU & HbM & HbW).
   clear Hdec.
-  unfold in64, ins64, clocks_ok, FOREVER, WALLNOW in *.
-  destruct Hk as (Hu & Hm & Hw).
-  unfold f_dispatch_time_nano2mach, f_dispatch_clock_and_value_to_time, shifted, lo, past, MAXV in *.
-  destruct c; cbv iota beta zeta.
-  - (* Up *)
-    destruct (HbU eq_refl) as [[-> ->] | [Hn0 ->]]; eval_lit; cbv zeta;
-    crunch; rewrite ?lor_b63 by lia; unfold decode, FOREVER, WALLNOW, MAXV; crunch; finish.
-  - (* Mono *)
-    destruct (HbM eq_refl) as [[-> ->] | [Hn0 ->]]; eval_lit; cbv zeta;
-    crunch; rewrite ?lor_b63 by lia; unfold decode, FOREVER, WALLNOW, MAXV; crunch; finish.
-  - (* Wall *)
-    destruct (HbW eq_refl) as [[-> ->] | [Hn0 ->]]; eval_lit; cbv zeta;
-    crunch; rewrite ?lor_b63 by lia; unfold decode, FOREVER, WALLNOW, MAXV; crunch; finish.
+  assert (Hne' : (inval =? 18446744073709551615) = false) by (unfold FOREVER in Hne; lia).
+  rewrite Hne'. clear Hne'.
+  pose proof Hk as (Hu & Hm & Hw).
+  unfold in64, MAXV, lo in *.
+  unfold f_dispatch_time_nano2mach.
+  destruct c; cbv iota beta.
+  - (* uptime *)
+    set (v := if inval =? 0 then 0 else b).
+    assert (Hv8 : (if v =? 0 then if 0 =? 0 then now_up k else now_mono k else v) = b).
+    { subst v. destruct (HbU eq_refl) as [[-> ->] | [Hn0 ->]]; cbn [Z.eqb]; [reflexivity|].
+      destruct (Z.eqb_spec inval 0); [lia|]. destruct (Z.eqb_spec inval 0); [lia|reflexivity]. }
+    assert (Hvf : (v =? 18446744073709551615) = false) by (subst v; destruct (inval =? 0); lia).
+    rewrite Hvf. change (0 =? 2) with false. cbv iota. cbv zeta. rewrite Hv8.
+    apply (nonwall_arith k Up b delta); (assumption || discriminate || lia).
+  - (* monotonic *)
+    set (v := if inval =? 9223372036854775808 then 0 else b).
+    assert (Hv8 : (if v =? 0 then if 1 =? 0 then now_up k else now_mono k else v) = b).
+    { subst v. destruct (HbM eq_refl) as [[-> ->] | [Hn0 ->]]; cbn [Z.eqb]; [reflexivity|].
+      destruct (Z.eqb_spec inval 9223372036854775808); [lia|].
+      destruct (Z.eqb_spec (inval - 9223372036854775808) 0); [lia|reflexivity]. }
+    assert (Hvf : (v =? 18446744073709551615) = false) by (subst v; destruct (inval =? 9223372036854775808); lia).
+    rewrite Hvf. change (1 =? 2) with false. cbv iota. cbv zeta. rewrite Hv8.
+    apply (nonwall_arith k Mono b delta); (assumption || discriminate || lia).
+  - (* wall clock *)
+    assert (Hvf : (b =? 18446744073709551615) = false) by lia.
+    rewrite Hvf. change (2 =? 2) with true. cbv iota.
+    apply (wall_arith k b delta); (assumption || lia).
+Qed.
+
+Lemma dispatch_time_forever delta nw nu nm : dispatch_time FOREVER delta nw nu nm = FOREVER.
+Proof. reflexivity. Qed.
+
+Lemma dispatch_time_out_of_range k inval delta :
+  in64 inval -> clocks_ok k -> decode k inval = Forever ->
+  dispatch_time inval delta (now_wall k) (now_up k) (now_mono k) = FOREVER.
+Proof.
+  intros Hi Hk Hdec. unfold dispatch_time.
+  destruct (Z.eqb_spec inval 18446744073709551615) as [|Hne]; [reflexivity|].
+  rewrite (to_clock_and_value_spec k inval Hi Hne Hk), Hdec. reflexivity.
+Qed.
+
+(* ------------------------------------------------------------------ monotonicity *)
+Lemma shifted_monotone k c b d1 d2 :
+  clocks_ok k -> lo c <= b -> d1 <= d2 -> time_le k (shifted k c b d1) (shifted k c b d2).
+Proof.
+  intros (Hu & Hm & Hw) Hb Hd. unfold shifted, time_le, MAXV, lo, past in *.
+  destruct (Z.geb_spec (b + d2) 4611686018427387903).
+  - destruct (b + d1 >=? 4611686018427387903); [exact I|]. destruct (b + d1 <? _); exact I.
+  - destruct (Z.geb_spec (b + d1) 4611686018427387903); [lia|].
+    destruct c;
+    repeat match goal with |- context [if ?x <? ?y then _ else _] => destruct (Z.ltb_spec x y) end;
+    cbn [now]; (split; [reflexivity | lia]).
+Qed.
+
+(* ------------------------------------------------------------------ _dispatch_timeout *)
+Lemma timeout_spec k t c v :
+  in64 t -> clocks_ok k -> decode k t = At c v ->
+  f_dispatch_timeout t (now_wall k) (now_up k) (now_mono k) = Z.max 0 (v - now k c).
+Proof.
+  intros Hi Hk Hdec. unfold f_dispatch_timeout.
+  assert (Hne : t <> 18446744073709551615).
+  { intros ->. unfold decode, FOREVER in Hdec. cbn in Hdec. discriminate. }
+  destruct (Z.eqb_spec t 18446744073709551615) as [|_]; [contradiction|].
+  rewrite (to_clock_and_value_spec k t Hi Hne Hk), Hdec.
+  pose proof Hk as (Hu & Hm & Hw). unfold in64, MAXV in *.
+  destruct (decode_At k t c v Hi Hk Hdec) as (Hb & HbU & HbM & HbW). unfold MAXV, lo in Hb.
+  unfold f_dispatch_time_mach2nano.
+  destruct c; cbn [now].
+  - destruct (HbU eq_refl) as [[-> ->] | [Hn0 ->]].
+    + cbn [Z.eqb]. lia.
+    + destruct (Z.eqb_spec t 0); [lia|]. destruct (Z.eqb_spec t 0); [lia|]. cbn [Z.eqb]. cbv zeta iota.
+      destruct (Z.geb_spec (now_up k) t); [lia|]. rewrite u64_small by lia. lia.
+  - destruct (HbM eq_refl) as [[-> ->] | [Hn0 ->]].
+    + cbn. destruct (Z.geb_spec (now_mono k) 0); lia.
+    + destruct (Z.eqb_spec t 0); [lia|]. destruct (Z.eqb_spec t 9223372036854775808); [lia|].
+      cbn [Z.eqb Pos.eqb]. cbv zeta iota.
+      destruct (Z.geb_spec (now_mono k) (t - 9223372036854775808)); [lia|]. rewrite u64_small by lia. lia.
+  - assert (t <> 0) by (unfold WALLNOW in HbW; destruct (HbW eq_refl) as [[-> _]|[_ ->]]; lia).
+    destruct (Z.eqb_spec t 0); [lia|]. cbn [Z.eqb Pos.eqb]. cbv zeta iota.
+    destruct (Z.geb_spec (now_wall k) v); [lia|]. rewrite u64_small by lia. lia.
+Qed.
+
+Lemma timeout_forever nw nu nm : f_dispatch_timeout FOREVER nw nu nm = FOREVER.
+Proof. reflexivity. Qed.
+
+Lemma elapsed_timeout_zero k t :
+  in64 t -> clocks_ok k -> elapsed k (decode k t) ->
+  f_dispatch_timeout t (now_wall k) (now_up k) (now_mono k) = 0.
+Proof.
+  intros Hi Hk He.
+  destruct (decode k t) as [|c v] eqn:Hdec; cbn in He; [contradiction|].
+  rewrite (timeout_spec k t c v) by assumption. lia.
+Qed.
+
+(* waiting until a time produced by an underflowing shift does not block *)
+Lemma underflow_is_elapsed k c b delta :
+  clocks_ok k -> b + delta < lo c -> elapsed k (shifted k c b delta).
+Proof.
+  intros (Hu & Hm & Hw) Hlt. unfold shifted, elapsed, MAXV, lo, past in *.
+  destruct (Z.geb_spec (b + delta) 4611686018427387903); [destruct c; lia|].
+  destruct (Z.ltb_spec (b + delta) (match c with Wall => 3 | _ => 1 end)); [|lia].
+  destruct c; cbn [now]; lia.
+Qed.
+
+(* ------------------------------------------------------------------ dispatch_walltime *)
+Lemma s64_overflow_test x : (negb (s64 x =? x)) = negb (fits64 x).
+Proof.
+  unfold fits64. destruct (Z.leb_spec (-9223372036854775808) x); destruct (Z.ltb_spec x 9223372036854775808); cbn.
+  - rewrite s64_small by lia. rewrite Z.eqb_refl. reflexivity.
+  - pose proof (s64_range x). destruct (Z.eqb_spec (s64 x) x); [lia|reflexivity].
+  - pose proof (s64_range x). destruct (Z.eqb_spec (s64 x) x); [lia|reflexivity].
+  - lia.
+Qed.
+
+(* the tail shared by both branches: nsec is the exact base (fits 64 bits), then + delta with overflow check *)
+Lemma walltime_tail k n delta :
+  clocks_ok k -> ins64 n -> ins64 delta ->
+  decode k
+    (let exact := n + delta in
+     let nsec := s64 exact in
+     if nz (b2z (negb (nsec =? exact)))
+     then if delta >=? 0 then 18446744073709551615 else 18446744073709551614
+     else if nsec <=? 1 then 18446744073709551614
+     else if nsec >=? 4611686018427387903 then 18446744073709551615
+     else u64 (s64 (- nsec)))
+  = shifted k Wall n delta.
+Proof.
+  intros Hk Hn Hd. pose proof Hk as (Hu & Hm & Hw). unfold ins64, MAXV in *. cbv zeta.
+  rewrite s64_overflow_test. unfold fits64, shifted, lo, past, MAXV.
+  destruct (Z.leb_spec (-9223372036854775808) (n + delta)); destruct (Z.ltb_spec (n + delta) 9223372036854775808);
+    cbn [andb negb b2z nz Z.eqb]; try lia.
+  - rewrite (s64_small (n + delta)) by lia.
+    destruct (Z.leb_spec (n + delta) 1).
+    + destruct (Z.geb_spec (n + delta) 4611686018427387903); [lia|].
+      destruct (Z.ltb_spec (n + delta) 3); [|lia]. reflexivity.
+    + destruct (Z.geb_spec (n + delta) 4611686018427387903); [reflexivity|].
+      rewrite s64_small by lia. rewrite u64_neg by lia.
+      destruct (Z.ltb_spec (n + delta) 3).
+      * assert (n + delta = 2) as -> by lia. reflexivity.
+      * unfold decode, FOREVER, WALLNOW, MAXV.
+        repeat match goal with
+               | |- context [if ?x =? ?y then _ else _] => destruct (Z.eqb_spec x y); [lia|]
+               | |- context [if ?x <? ?y then _ else _] => destruct (Z.ltb_spec x y); [lia|]
+               end.
+        destruct (Z.leb_spec (18446744073709551616 - (- (n + delta) + 18446744073709551616)) 4611686018427387903); [|lia].
+        f_equal. lia.
+  - (* positive overflow *)
+    destruct (Z.geb_spec delta 0); [|lia].
+    destruct (Z.geb_spec (n + delta) 4611686018427387903); [reflexivity|lia].
+  - (* negative overflow *)
+    destruct (Z.geb_spec delta 0); [lia|].
+    destruct (Z.geb_spec (n + delta) 4611686018427387903); [lia|].
+    destruct (Z.ltb_spec (n + delta) 3); [reflexivity|lia].
+Qed.
+
+Lemma dispatch_walltime_spec k inval ts delta :
+  clocks_ok k -> ins64 delta ->
+  (inval = 0 <-> ts = None) ->
+  (forall sec nsec, ts = Some (sec, nsec) -> ins64 sec /\ ins64 nsec) ->
+  decode k (dispatch_walltime inval delta (match ts with Some (s, _) => s | None => 0 end)
+                              (match ts with Some (_, n) => n | None => 0 end) (now_wall k))
+  = walltime_spec k ts delta.
+Proof.
+  intros Hk Hd Hnull Hts. pose proof Hk as (Hu & Hm & Hw). unfold MAXV in *.
+  unfold dispatch_walltime, walltime_spec.
+  destruct ts as [[sec nsec]|].
+  - assert (Hnz : nz inval = true).
+    { unfold nz. destruct (Z.eqb_spec inval 0) as [E|]; [|reflexivity]. apply Hnull in E. discriminate. }
+    rewrite Hnz. destruct (Hts sec nsec eq_refl) as [Hs Hn]. cbv zeta.
+    rewrite (s64_overflow_test (sec * 1000000000)).
+    destruct (fits64 (sec * 1000000000)) eqn:F1; cbn [negb b2z nz Z.eqb andb].
+    + assert (E1 : s64 (sec * 1000000000) = sec * 1000000000) by (apply s64_small; unfold fits64 in F1; lia).
+      rewrite E1. rewrite (s64_overflow_test (sec * 1000000000 + nsec)).
+      destruct (fits64 (sec * 1000000000 + nsec)) eqn:F2; cbn [negb b2z nz Z.eqb].
+      * assert (E2 : s64 (sec * 1000000000 + nsec) = sec * 1000000000 + nsec)
+          by (apply s64_small; unfold fits64 in F2; lia).
+        rewrite E2.
+        apply (walltime_tail k (sec * 1000000000 + nsec) delta); try assumption.
+        unfold ins64, fits64 in *. lia.
+      * destruct (sec <? 0); reflexivity.
+    + destruct (sec <? 0); reflexivity.
+  - assert (Hz : nz inval = false).
+    { unfold nz. destruct (Z.eqb_spec inval 0) as [E|N]; [reflexivity|]. exfalso. apply N. apply Hnull. reflexivity. }
+    rewrite Hz. cbv zeta. rewrite (s64_small (now_wall k)) by lia.
+    apply (walltime_tail k (now_wall k) delta); try assumption. unfold ins64. lia.
+Qed.
+
+(* ------------------------------------------------------------------ _dispatch_time_nanoseconds_since_epoch *)
+(* used by the semaphore / group timed waits (C07, C08): the absolute CLOCK_REALTIME deadline handed to the
+   kernel is never earlier than now + remaining time *)
+Lemma since_epoch_spec k t c v :
+  in64 t -> clocks_ok k -> decode k t = At c v ->
+  f_dispatch_time_nanoseconds_since_epoch t (now_wall k) (now_up k) (now_mono k) =
+  match c with
+  | Wall => if t =? WALLNOW then 2 else v
+  | _ => now_wall k + Z.max 0 (v - now k c)
+  end.
+Proof.
+  intros Hi Hk Hdec. unfold f_dispatch_time_nanoseconds_since_epoch.
+  assert (Hne : t <> 18446744073709551615).
+  { intros ->. unfold decode, FOREVER in Hdec. cbn in Hdec. discriminate. }
+  destruct (Z.eqb_spec t 18446744073709551615) as [|_]; [contradiction|].
+  pose proof Hk as (Hu & Hm & Hw). unfold in64, MAXV in *.
+  destruct (decode_At k t c v Hi Hk Hdec) as (Hb & HbU & HbM & HbW). unfold MAXV, lo in Hb.
+  rewrite b62_cases by lia. unfold nz.
+  destruct c.
+  - assert (t < 4611686018427387904) by (destruct (HbU eq_refl) as [[-> _]|[_ ->]]; lia).
+    rewrite (s64_small t) by lia. destruct (Z.ltb_spec t 0); [lia|]. cbn [andb].
+    rewrite (timeout_spec k t Up v) by assumption. apply u64_small. cbn [now]. lia.
+  - assert (9223372036854775808 <= t < 13835058055282163712) by (destruct (HbM eq_refl) as [[-> _]|[_ ->]]; lia).
+    destruct (Z.ltb_spec t 4611686018427387904); [lia|]. destruct (Z.ltb_spec t 9223372036854775808); [lia|].
+    destruct (Z.ltb_spec t 13835058055282163712); [|lia]. cbn [Z.eqb negb]. rewrite andb_false_r.
+    rewrite (timeout_spec k t Mono v) by assumption. apply u64_small. cbn [now]. lia.
+  - assert (13835058055282163712 <= t) by (unfold WALLNOW in HbW; destruct (HbW eq_refl) as [[-> _]|[_ ->]]; lia).
+    destruct (Z.ltb_spec t 4611686018427387904); [lia|]. destruct (Z.ltb_spec t 9223372036854775808); [lia|].
+    destruct (Z.ltb_spec t 13835058055282163712); [lia|]. cbn [Z.eqb Pos.eqb negb].
+    rewrite (s64_high t) by lia. destruct (Z.ltb_spec (t - 18446744073709551616) 0); [|lia]. cbn [andb].
+    rewrite s64_small by lia. rewrite u64_small by lia.
+    unfold WALLNOW in *. destruct (HbW eq_refl) as [[-> _]|[Hn ->]].
+    + reflexivity.
+    + destruct (Z.eqb_spec t 18446744073709551614); [contradiction|]. lia.
+Qed.
+
+(* consequence used by C08/C12: the absolute deadline handed to sem_timedwait is never before
+   now + (time remaining on the deadline's own clock), and it is not in the future once the time has elapsed *)
+Lemma since_epoch_elapsed k t :
+  in64 t -> clocks_ok k -> elapsed k (decode k t) ->
+  f_dispatch_time_nanoseconds_since_epoch t (now_wall k) (now_up k) (now_mono k) <= now_wall k.
+Proof.
+  intros Hi Hk He. destruct (decode k t) as [|c v] eqn:Hdec; cbn in He; [contradiction|].
+  rewrite (since_epoch_spec k t c v) by assumption.
+  pose proof Hk as (Hu & Hm & Hw). destruct c; cbn [now] in *; try lia.
+  destruct (t =? WALLNOW); lia.
 Qed.
